@@ -61,6 +61,12 @@ pub enum Pre {
     ByteSub(usize, bool),
     Prefix(String),
     Suffix(String),
+    /// target := input
+    Overwrite,
+    NoWs(bool),
+    FullWs(bool),
+    /// sets info.marks[key] = value (read by Post::OnMark / Post::SwitchOnMark)
+    Mark(String, String),
 }
 
 #[derive(Serialize, Deserialize, Clone, Debug)]
@@ -77,6 +83,10 @@ pub enum Post {
     Mask { tok: Tok, p: f64, min: usize, num_p: f64 },
     MaskThenClip { tok: Tok, p: f64, min: usize, num_p: f64 },
     SwitchMaskNone { tok: Tok, p: f64, min: usize, num_p: f64 },
+    /// apply `inner` to the items whose mark `key` has the value `value`
+    OnMark { key: String, value: String, inner: Box<Post> },
+    /// apply posts[i] to the items whose mark `key` has the value values[i]
+    SwitchOnMark { key: String, values: Vec<String>, posts: Vec<Post> },
 }
 
 #[derive(Serialize, Deserialize, Clone, Debug)]
@@ -244,6 +254,10 @@ fn pre_cfg(p: &Pre, dir: &Path) -> PreprocessingFnConfig {
         Pre::ByteSub(n, g) => PreprocessingFnConfig::ByteSubstring(*n, *g),
         Pre::Prefix(s) => PreprocessingFnConfig::Prefix(Part::Input, s.clone()),
         Pre::Suffix(s) => PreprocessingFnConfig::Suffix(Part::Input, s.clone()),
+        Pre::Overwrite => PreprocessingFnConfig::Overwrite(Part::Target),
+        Pre::NoWs(g) => PreprocessingFnConfig::NoWhitespaces(Part::Input, *g),
+        Pre::FullWs(g) => PreprocessingFnConfig::FullWhitespaces(Part::Input, *g),
+        Pre::Mark(k, v) => PreprocessingFnConfig::Mark(k.clone(), v.clone()),
     }
 }
 
@@ -307,6 +321,14 @@ fn post_cfg(p: &Post) -> PostprocessingFnConfig {
         Post::SwitchMaskNone { tok, p, min, num_p } => PostprocessingFnConfig::Switch(
             vec![mask(tok, *p, *min, *num_p), PostprocessingFnConfig::None],
             vec![0.5, 0.5],
+        ),
+        Post::OnMark { key, value, inner } => {
+            PostprocessingFnConfig::OnMark(key.clone(), value.clone(), vec![post_cfg(inner)])
+        }
+        Post::SwitchOnMark { key, values, posts } => PostprocessingFnConfig::SwitchOnMark(
+            key.clone(),
+            values.clone(),
+            posts.iter().map(post_cfg).collect(),
         ),
     }
 }
@@ -764,7 +786,24 @@ impl Prop for C08 {
             },
         };
         let ws_task = matches!(task, Task::Ws { .. });
-        let pre = match rng.random_range(0..12) {
+        let marked = rng.random_range(0..9) == 0;
+        let pre = match rng.random_range(0..13) {
+            // two branches that leave a mark on the item (read by the postprocessing below)
+            _ if marked => Pre::Switch(
+                vec![
+                    Pre::Chain(vec![gen_ws(rng), Pre::Mark("kind".to_string(), "ws".to_string())]),
+                    Pre::Chain(vec![Pre::Clean(g_all), Pre::Mark("kind".to_string(), "plain".to_string())]),
+                ],
+                vec![0.5, 0.5],
+            ),
+            12 => Pre::Chain(vec![
+                match rng.random_range(0..3) {
+                    0 => Pre::NoWs(g_all),
+                    1 => Pre::FullWs(g_all),
+                    _ => Pre::Overwrite,
+                },
+                gen_ws(rng),
+            ]),
             0 => Pre::None,
             1 => Pre::Clean(g_all),
             2..=4 => gen_ws(rng),
@@ -807,7 +846,23 @@ impl Prop for C08 {
             Task::Ws { tok, .. } | Task::Gen { tok, .. } => tok.clone(),
             Task::CondGen { tok_in, .. } => tok_in.clone(),
         };
+        let mk_mask = |tok: &Tok| Post::Mask {
+            tok: tok.clone(),
+            p: 0.5,
+            min: 1,
+            num_p: 0.5,
+        };
         let post = match rng.random_range(0..8) {
+            _ if marked && rng.random_bool(0.5) => Post::SwitchOnMark {
+                key: "kind".to_string(),
+                values: vec!["ws".to_string(), "plain".to_string()],
+                posts: vec![mk_mask(&mask_tok), Post::Clip],
+            },
+            _ if marked => Post::OnMark {
+                key: "kind".to_string(),
+                value: "ws".to_string(),
+                inner: Box::new(mk_mask(&mask_tok)),
+            },
             0..=3 => Post::None,
             4 => Post::Clip,
             5 => Post::Mask {
@@ -894,7 +949,8 @@ impl Prop for C08 {
             char_file.push("<bow> a <eow>\t5".to_string());
         }
         // per-source preprocessing: the source index reported by the generator selects the function
-        let pre_per_source: Vec<Pre> = if nfiles >= 2 && rng.random_bool(0.35) {
+        // (not with marks: a per-source function that sets no mark makes SwitchOnMark panic by design)
+        let pre_per_source: Vec<Pre> = if nfiles >= 2 && !marked && rng.random_bool(0.35) {
             (0..nfiles)
                 .map(|i| match (i + rng.random_range(0..2usize)) % 3 {
                     0 => pre.clone(),
@@ -1414,6 +1470,7 @@ fn check_inner(c: &Case, files: &Files, obs: &mut Obs) {
         || !matches!(c.post, Post::None | Post::Clip);
     obs.tag_if(!c.pre_per_source.is_empty(), "pre-per-source");
     obs.tag_if(c.crlf, "crlf-line-ends");
+    obs.tag_if(matches!(c.post, Post::OnMark { .. } | Post::SwitchOnMark { .. }), "marks-pre-to-post");
     // (long lane: more than 2^16 items through one pipe count as non-trivial as well)
     obs.nontrivial_if((randomised || flat(&b0).len() > 65_536) && b0.len() >= 2 && max_threads >= 2);
     obs.add("loader_runs", runs);
